@@ -39,10 +39,11 @@ Definition stun_repl (ci : cinfo) (data : bytes) : cinfo * option bytes :=
     let d0 := u8_at 0 data in
     let d1 := u8_at 1 data in
     let class := (N.land d0 1) * 2 + (N.land d1 16) / 16 in
-    (* `((data[0] & 0b00111110) << 7) as u16` is evaluated on u8: always 0 *)
-    let method := N.land d1 239 in
+    let method := (N.land d0 62) * 128 + N.land d1 239 in
     let len := u16_at 2 data in
-    if lenN data <? 20 + len then (ci, None)
+    (* RFC 5389: the two most significant bits of a STUN message are zero *)
+    if 64 <=? d0 then (ci, None)
+    else if lenN data <? 20 + len then (ci, None)
     else
       match stun_attrs (length data) (slice 20 (N.to_nat len) data) false with
       | None => (ci, None)
